@@ -3,7 +3,7 @@
 set -e
 cd "$(dirname "$0")"
 mkdir -p build evidence replays coq/gen
-/venv/bin/python harness/translate.py coq/gen
+PYTHONPATH=/repo PYTHONHASHSEED=0 /venv/bin/python harness/translate.py coq/gen
 cd coq
 coq_makefile -f _CoqProject -o Makefile >/dev/null 2>&1
 timeout 3000 make -j16 2>&1 | grep -v "WARNING conda" | tail -5
